@@ -92,6 +92,9 @@ type world struct {
 	rnd   *rand.Rand
 	si    int
 	stop  bool
+	// first: per client endpoint, the length of the request (first transport write) in the model and on the real wire;
+	// they differ by the padding, which the real client draws at random
+	first map[string][2]int
 	// layout: the frame layout on the wire differs from the model's (not part of the property); the
 	// behaviour goes on, but scripted partial deliveries may no longer make sense
 	layout bool
@@ -226,6 +229,18 @@ func (w *world) step(a action) {
 		if a.Out.Rest == 0 {
 			l.Deliver(-1)
 		} else {
+			// a partial delivery is the first delivery of the link (spec: arr = 0).  The model counts bytes of its own
+			// request; the real request is longer or shorter by its random padding, so the cut is moved by that
+			// difference when it lies behind the request, and kept inside the request when the model cuts inside it
+			k := a.K
+			if f, ok := w.first[a.E]; ok && l.Arrived == 0 {
+				if k >= f[0] {
+					k += f[1] - f[0]
+				} else if k >= f[1] {
+					k = f[1] - 1
+				}
+			}
+			a.K = k
 			if a.K >= l.InFlight() {
 				if w.layout {
 					w.stop = true // the layout already drifted: this scripted segmentation does not apply
@@ -307,6 +322,10 @@ func (w *world) dial(a action) {
 		w.layoutDrift("stream.layout/request-padding", "request of %d bytes for payload %d, address %d: padding %d outside the rule", wr[0], a.P, a.Al, pad)
 	}
 	if len(a.Out.Tw) > 0 {
+		if w.first == nil {
+			w.first = map[string][2]int{}
+		}
+		w.first[a.E] = [2]int{a.Out.Tw[0], wr[0]}
 		want := append([]int{wr[0]}, a.Out.Tw[1:]...)
 		w.checkTW(sess.TL.Tx, 0, want, "Dial")
 	}
